@@ -1810,3 +1810,180 @@ Proof.
   - rewrite (NZ _ C). simpl. apply orb_true_r || (rewrite orb_true_r; reflexivity).
 Qed.
 End PartitionReal.
+
+(* ================================================================ state kept between calls *)
+
+(* ---- the caller's multi_stream *)
+Lemma ms_after_copy_forgets (ms0 ms0' : list vec) k feed :
+  length ms0 = length ms0' -> ms_after_copy ms0 k feed = ms_after_copy ms0' k feed.
+Proof.
+  intros L. unfold ms_after_copy. f_equal.
+  revert ms0' L; induction ms0 as [|a ms0 IH]; intros [|b ms0'] L; simpl in *; try discriminate; auto.
+  f_equal. apply IH. lia.
+Qed.
+
+Lemma colsum_zero_rows (ms0 : list vec) n i : colsum (map (fun _ : vec => vzero n) ms0) i == 0.
+Proof. induction ms0 as [|a l IH]; simpl; [lra|]. rewrite nthq_vzero, IH. lra. Qed.
+
+Lemma colsum_upd (l : list vec) k v i : (k < length l)%nat ->
+  colsum (upd l k v) i == colsum l i - nthq (nth k l []) i + nthq v i.
+Proof.
+  revert k; induction l as [|a l IH]; intros [|k] H; simpl in *; try lia.
+  - lra.
+  - rewrite IH by lia. lra.
+Qed.
+
+Lemma nth_zero_rows (ms0 : list vec) n k i : nthq (nth k (map (fun _ : vec => vzero n) ms0) []) i == 0.
+Proof.
+  revert k; induction ms0 as [|a l IH]; intros [|k]; simpl; rewrite ?nthq_nil, ?nthq_vzero; try lra. apply IH.
+Qed.
+
+Lemma ms_after_copy_total ms0 k feed i : (k < length ms0)%nat ->
+  colsum (ms_after_copy ms0 k feed) i == nthq feed i.
+Proof.
+  intros H. unfold ms_after_copy. rewrite colsum_upd by (rewrite map_length; exact H).
+  rewrite colsum_zero_rows, nth_zero_rows. lra.
+Qed.
+
+Lemma In_upd {A} (l : list A) k v x : In x (upd l k v) -> x = v \/ In x l.
+Proof.
+  revert k; induction l as [|a l IH]; intros [|k] H; simpl in *; auto.
+  - destruct H as [H|H]; auto.
+  - destruct H as [H|H]; auto. destruct (IH k H); auto.
+Qed.
+
+Lemma ms_after_copy_lengths ms0 k feed v : In v (ms_after_copy ms0 k feed) -> length v = length feed.
+Proof.
+  unfold ms_after_copy. intros H. apply In_upd in H. destruct H as [->|H]; [reflexivity|].
+  apply in_map_iff in H. destruct H as (x & <- & _). apply vzero_length.
+Qed.
+
+Lemma lle_ms_history_independent rho eqr extra (ms0 ms0' : list vec) k feed top0 bot0 topchem eff :
+  length ms0 = length ms0' ->
+  lle_ms rho eqr extra ms0 k feed top0 bot0 topchem eff = lle_ms rho eqr extra ms0' k feed top0 bot0 topchem eff.
+Proof.
+  intros L. unfold lle_ms, lle_wrap. rewrite (ms_after_copy_forgets ms0 ms0' k feed L). reflexivity.
+Qed.
+
+Lemma vle_ms_history_independent eqr (ms0 ms0' : list vec) k feed :
+  length ms0 = length ms0' -> vle_ms eqr ms0 k feed = vle_ms eqr ms0' k feed.
+Proof.
+  intros L. unfold vle_ms, vle_wrap. rewrite (ms_after_copy_forgets ms0 ms0' k feed L). reflexivity.
+Qed.
+
+(* contract of a conserving equilibrium call: the two rows it leaves add up to the material the stream held *)
+Definition eq_conserves (n : nat) (eqr : list vec -> vec * vec) : Prop :=
+  forall rows, (forall v, In v rows -> length v = n) ->
+    length (fst (eqr rows)) = n /\ length (snd (eqr rows)) = n /\
+    forall i, nthq (fst (eqr rows)) i + nthq (snd (eqr rows)) i == colsum rows i.
+
+Lemma lle_ms_conserves_lemma rho eqr extra ms0 k feed top0 bot0 topchem eff :
+  eq_conserves (length feed) eqr -> (k < length ms0)%nat ->
+  let r := lle_ms rho eqr extra ms0 k feed top0 bot0 topchem eff in
+  e_err r = None ->
+  forall i, nthq (e_top r) i + nthq (e_bot r) i == nthq feed i.
+Proof.
+  intros C K r OK i.
+  destruct (C (ms_after_copy ms0 k feed) (ms_after_copy_lengths ms0 k feed)) as (L1 & L2 & S).
+  unfold r, lle_ms in *.
+  apply (lle_conserves_lemma rho (fun f => eqr (ms_after_copy ms0 k f)) extra feed top0 bot0 topchem eff
+           (fst (eqr (ms_after_copy ms0 k feed))) (snd (eqr (ms_after_copy ms0 k feed)))); auto.
+  - apply surjective_pairing.
+  - intros j. rewrite S. apply ms_after_copy_total. exact K.
+Qed.
+
+Lemma vle_ms_conserves_lemma eqr ms0 k feed :
+  eq_conserves (length feed) eqr -> (k < length ms0)%nat ->
+  forall i, nthq (fst (vle_ms eqr ms0 k feed)) i + nthq (snd (vle_ms eqr ms0 k feed)) i == nthq feed i.
+Proof.
+  intros C K i.
+  destruct (C (ms_after_copy ms0 k feed) (ms_after_copy_lengths ms0 k feed)) as (_ & _ & S).
+  unfold vle_ms, vle_wrap. destruct (eqr (ms_after_copy ms0 k feed)) as [g l] eqn:E. cbn [fst snd] in *.
+  rewrite S. apply ms_after_copy_total. exact K.
+Qed.
+
+(* the relative stub of the harness is such a conserving call *)
+Lemma eq_rel_conserves n s : length s = n -> eq_conserves n (eq_rel n s).
+Proof.
+  intros Ls rows Hl. unfold eq_rel. cbn [fst snd].
+  assert (LT : length (vsum n rows) = n) by (apply vsum_length; exact Hl).
+  split; [rewrite vmul_length; lia|]. split; [rewrite vsub_length; [lia|rewrite vmul_length; lia]|].
+  intros i. rewrite nthq_vsub by (rewrite vmul_length; lia). rewrite nthq_vsum by exact Hl. lra.
+Qed.
+
+(* ---- cached per-phase views of a MultiStream *)
+Definition views_ok (s : mstate) : Prop :=
+  Forall (fun v : option nat => v = None \/ v = Some (ms_gen s)) (ms_views s).
+
+Lemma Forall_upd {A} (P : A -> Prop) (l : list A) k x : Forall P l -> P x -> Forall P (upd l k x).
+Proof.
+  intros F Px. revert k; induction F as [|a l Pa F IH]; intros [|k]; simpl; constructor; auto.
+Qed.
+
+Lemma Forall_map2 {A B C} (P : C -> Prop) (f : A -> B -> C) a b :
+  (forall x y, In x a -> P (f x y)) -> Forall P (map2 f a b).
+Proof.
+  revert b; induction a as [|x a IH]; intros [|y b] H; simpl; constructor.
+  - apply H. left; reflexivity.
+  - apply IH. intros x' y' Hx. apply H. right; exact Hx.
+Qed.
+
+Lemma views_ok_init present rows : views_ok (minit present rows).
+Proof. unfold views_ok, minit; simpl. repeat constructor. Qed.
+
+Lemma mstep_views_ok n s o s' : views_ok s -> mstep n s o = Ok s' -> views_ok s'.
+Proof.
+  unfold views_ok. intros V H. destruct o as [p|p v|np|]; unfold mstep in H.
+  - destruct (nthb (ms_present s) p); [|discriminate]. inversion H; subst s'; simpl.
+    apply Forall_upd; [exact V|]. destruct (nth p (ms_views s) None) as [g|] eqn:E; simpl; auto.
+    assert (X : nth p (ms_views s) None = None \/ nth p (ms_views s) None = Some (ms_gen s)).
+    { destruct (nth_in_or_default p (ms_views s) None) as [I|D]; [|left; exact D].
+      rewrite Forall_forall in V. apply V; exact I. }
+    rewrite E in X. destruct X as [X|X]; [discriminate|]. right; exact X.
+  - destruct (nthb (ms_present s) p); [|discriminate]. inversion H; subst s'; simpl. exact V.
+  - destruct (blist_eqb np (ms_present s)); [inversion H; subst; exact V|].
+    destruct (regroup n np all_phases (ms_present s) (ms_rows s) (repeat (vzero n) 4)) as [rows'|e]; unfold bind in H;
+      [|discriminate H].
+    inversion H; subst s'; simpl. apply Forall_map2.
+    intros x y _. destruct y; [destruct x|]; auto.
+  - inversion H; subst s'; simpl. apply Forall_map2.
+    intros x y Hx. rewrite Forall_forall in V. specialize (V x Hx).
+    destruct y; [|exact V]. destruct x; simpl; auto.
+Qed.
+
+
+Lemma mrun_views_ok n s ops s' : views_ok s -> mrun n s ops = Ok s' -> views_ok s'.
+Proof.
+  revert s; induction ops as [|o ops IH]; intros s V H; simpl in H.
+  - inversion H; subst; exact V.
+  - destruct (mstep n s o) as [s1|e] eqn:E; simpl in H; [|discriminate].
+    apply (IH s1); [eapply mstep_views_ok; eauto|exact H].
+Qed.
+
+Lemma view_read_current s p : views_ok s -> view_read s p = nthv (ms_rows s) p.
+Proof.
+  unfold views_ok, view_read. intros V.
+  destruct (nth p (ms_views s) None) as [g|] eqn:E; [|reflexivity].
+  assert (X : nth p (ms_views s) None = None \/ nth p (ms_views s) None = Some (ms_gen s)).
+  { destruct (nth_in_or_default p (ms_views s) None) as [I|D]; [|left; exact D].
+    rewrite Forall_forall in V. apply V; exact I. }
+  rewrite E in X. destruct X as [X|X]; [discriminate|]. inversion X; subst. rewrite Nat.eqb_refl. reflexivity.
+Qed.
+
+(* for EVERY history of view accesses, earlier splits, flow assignments and phase-set changes: each outlet receives
+   the current flows of its phase of the feed (what feed.imol shows), never an older indexer's *)
+Lemma phase_split_hist_lemma n present rows ops outs0 outs current :
+  phase_split_hist n present rows ops outs0 = Ok (outs, current) ->
+  outs = current /\ exists s, mrun n (minit present rows) ops = Ok s /\
+     current = map (nthv (ms_rows s)) (present_phases s) /\ length outs0 = length (present_phases s).
+Proof.
+  unfold phase_split_hist. destruct (mrun n (minit present rows) ops) as [s|e] eqn:R; simpl; [|discriminate].
+  destruct (phase_split (map (view_read s) (present_phases s)) outs0) as [o|e] eqn:P; simpl; [|discriminate].
+  intros H; inversion H; subst outs current. clear H.
+  destruct (phase_split_routes_lemma _ _ _ P) as [EQ LEN].
+  pose proof (mrun_views_ok n _ ops s (views_ok_init present rows) R) as V.
+  assert (M : map (view_read s) (present_phases s) = map (nthv (ms_rows s)) (present_phases s)).
+  { apply map_ext. intros p. apply view_read_current. exact V. }
+  split; [rewrite EQ; exact M|]. exists s. split; [reflexivity|]. split; [reflexivity|].
+  rewrite LEN, map_length. reflexivity.
+Qed.
